@@ -11,6 +11,7 @@ import (
 	"log"
 	gonet "net"
 	"sync"
+	"sync/atomic"
 	"time"
 
 	"github.com/lugu/qiloop/bus"
@@ -18,7 +19,30 @@ import (
 	"github.com/lugu/qiloop/type/object"
 )
 
-func prEmitRace(a []string) string {
+// holdWriteStream: once armed, a write waits at the gate and then fails (the peer is gone by then)
+type holdWriteStream struct {
+	qnet.Stream
+	armed   int32
+	entered chan struct{}
+	gate    chan struct{}
+	once    sync.Once
+}
+
+func (h *holdWriteStream) Write(p []byte) (int, error) {
+	if atomic.LoadInt32(&h.armed) == 1 {
+		h.once.Do(func() { close(h.entered) })
+		<-h.gate
+		return 0, fmt.Errorf("connection reset by peer")
+	}
+	return h.Stream.Write(p)
+}
+
+func prEmitRace(a []string) string { return prEmitRaceMode("leave") }
+
+// pr.hanguprace: the first subscriber's connection is lost while the announcement of a write waits in the write to
+// it; the clean-up of the lost connection has removed its registration by the time that write fails.  The other
+// subscribers have received the value of every write once.
+func prEmitRaceMode(mode string) string {
 	log.SetOutput(ioutil.Discard)
 	l := &auListener{ch: make(chan qnet.Stream), closed: make(chan struct{})}
 	srv, err := bus.StandAloneServer(l, bus.Yes{}, bus.PrivateNamespace())
@@ -36,7 +60,8 @@ func prEmitRace(a []string) string {
 	sid := svc.ServiceID()
 	// the first subscriber, by hand
 	x, y := gonet.Pipe()
-	l.ch <- qnet.ConnStream(y)
+	hw := &holdWriteStream{Stream: qnet.ConnStream(y), entered: make(chan struct{}), gate: make(chan struct{})}
+	l.ch <- hw
 	defer x.Close()
 	ask := func(h qnet.Header, p []byte) (*qnet.Message, error) {
 		m := qnet.NewMessage(h, p)
@@ -113,6 +138,47 @@ func prEmitRace(a []string) string {
 		go func() { done <- custom.UpdateProperty(200, "i", raw) }()
 		return done
 	}
+	if mode == "hangup" {
+		atomic.StoreInt32(&hw.armed, 1)
+		first := update(42)
+		select {
+		case <-hw.entered:
+		case <-time.After(3 * time.Second):
+			return "setup-error:the announcement did not reach the first connection"
+		}
+		x.Close()
+		time.Sleep(300 * time.Millisecond) // the server notices, the closers of the connection run
+		close(hw.gate)
+		select {
+		case <-first:
+		case <-time.After(3 * time.Second):
+			return "stuck-announcement"
+		}
+		select {
+		case <-update(43):
+		case <-time.After(3 * time.Second):
+			return "stuck-announcement"
+		}
+		deadline := time.Now().Add(2 * time.Second)
+		for time.Now().Before(deadline) {
+			s2.mu.Lock()
+			n2 := len(s2.got)
+			s2.mu.Unlock()
+			s3.mu.Lock()
+			n3 := len(s3.got)
+			s3.mu.Unlock()
+			if n2 >= 2 && n3 >= 2 {
+				break
+			}
+			time.Sleep(time.Millisecond)
+		}
+		time.Sleep(20 * time.Millisecond)
+		s2.mu.Lock()
+		defer s2.mu.Unlock()
+		s3.mu.Lock()
+		defer s3.mu.Unlock()
+		return fmt.Sprintf("%v %v", s2.got, s3.got)
+	}
 	first := update(42)
 	select {
 	case <-first:
@@ -161,6 +227,13 @@ func prEmitRace(a []string) string {
 }
 
 func init() {
+	executors["pr.hanguprace"] = func(a []string) string {
+		r := prEmitRaceMode("hangup")
+		if r != "[42 43] [42 43]" {
+			lastFailDetail = r
+		}
+		return r
+	}
 	executors["pr.emitrace"] = func(a []string) string {
 		r := prEmitRace(a)
 		if r != "[42 43]" {
